@@ -423,6 +423,35 @@ static void check_dist(const F& f, const bj::object& d, const Spec& X, const Spe
       if (!same(got, dsup, 8 * dn, ex)) dv.add("dsup", dsup, jnum(got * 8 * dn));
       count(pre + "distance");
     }
+    // the same three distances through the free functions (compute_distance_of_landscapes(a, b, max) is what the
+    // compute_distance_of_landscapes utility calls for the sup distance)
+    if (q) {
+      bj::object a2 = act;
+      a2["p"] = 1;
+      Dev dv(pre + "free_distance", a2);
+      const double got = F::free_distance(a, b, 1.0);
+      if (!same(got, d1, 64 * dn, ex)) dv.add("d1", d1, jnum(got * 64 * dn));
+      count(pre + "free_distance");
+    }
+    {
+      bj::object a2 = act;
+      a2["p"] = 2;
+      Dev dv(pre + "free_distance", a2);
+      const double got = F::free_distance(a, b, 2.0);
+      if (!(got >= 0) || !near(got * got, d2, 1536 * dn * dn)) dv.add("d2^2", d2, jnum(got * got * 1536 * dn * dn));
+      count(pre + "free_distance");
+    }
+    {
+      bj::object a2 = act;
+      a2["p"] = "inf";
+      a2["nonint"] = (dsup % (8 * den)) != 0;
+      Dev dv(pre + "free_distance", a2);
+      const double got = F::free_distance(a, b, SUP);
+      if (!same(got, dsup, 8 * dn, ex)) dv.add("dsup", dsup, jnum(got * 8 * dn));
+      const double got2 = F::free_max_distance(a, b);
+      if (!same(got2, dsup, 8 * dn, ex)) dv.add("dsup (compute_max_norm_distance_of_landscapes)", dsup, jnum(got2 * 8 * dn));
+      count(pre + "free_distance");
+    }
     {
       Dev dv(pre + "inner", act);
       const double got = a.compute_scalar_product(b);
